@@ -700,8 +700,10 @@ func (db *RockDB) SetRange(ts int64, rawKey []byte, offset int, value []byte) (i
 	if err != nil {
 		return 0, err
 	}
-
-	if realV == nil && !keyInfo.Expired {
+	if keyInfo.Expired {
+		// the old content is dead, start from empty
+		realV = nil
+	} else if realV == nil {
 		db.IncrTableKeyCount(keyInfo.Table, 1, db.wb)
 	}
 	extra := offset + len(value) - len(realV)
@@ -779,6 +781,10 @@ func (db *RockDB) Append(ts int64, rawKey []byte, value []byte) (int64, error) {
 	keyInfo, realV, err := db.prepareKVValueForWrite(ts, rawKey, false)
 	if err != nil {
 		return 0, err
+	}
+	if keyInfo.Expired {
+		// the old content is dead, start from empty
+		realV = nil
 	}
 	if len(realV)+len(value) > MaxValueSize {
 		return 0, errValueSize
